@@ -94,7 +94,8 @@ impl<'a> CostEstimator<'a> {
         match plan {
             PhysicalOperator::Unit => 0,
             PhysicalOperator::TableScan { pattern } => {
-                self.estimate_quad_cardinality(pattern) * CostConstants::COST_PER_ROW_SCAN
+                self.estimate_quad_cardinality(pattern)
+                    .saturating_mul(CostConstants::COST_PER_ROW_SCAN)
             }
             PhysicalOperator::IndexScan { pattern } => {
                 let cardinality = self.estimate_quad_cardinality(pattern);
@@ -109,17 +110,18 @@ impl<'a> CostEstimator<'a> {
                     _ => 1,
                 };
 
-                (cardinality * CostConstants::COST_PER_ROW_INDEX_SCAN) / discount
+                cardinality.saturating_mul(CostConstants::COST_PER_ROW_INDEX_SCAN) / discount
             }
             PhysicalOperator::Union { branches } => branches
                 .iter()
                 .map(|branch| self.estimate_cost(branch))
-                .sum(),
+                .fold(0u64, u64::saturating_add),
             PhysicalOperator::Graph { input, .. } => self.estimate_cost(input),
             PhysicalOperator::Filter { input, condition } => {
                 let input_cost = self.estimate_cost(input);
                 let selectivity = self.estimate_selectivity(condition);
-                (input_cost as f64 * selectivity) as u64 + CostConstants::COST_PER_FILTER
+                ((input_cost as f64 * selectivity) as u64)
+                    .saturating_add(CostConstants::COST_PER_FILTER)
             }
             PhysicalOperator::BindJoin { left, .. } => {
                 // The right side is probed per left row, never executed standalone
@@ -128,8 +130,8 @@ impl<'a> CostEstimator<'a> {
                 let output = self.estimate_output_cardinality(plan);
 
                 left_cost
-                    + left_cardinality * CostConstants::COST_PER_PROBE
-                    + output * CostConstants::COST_PER_ROW_JOIN
+                    .saturating_add(left_cardinality.saturating_mul(CostConstants::COST_PER_PROBE))
+                    .saturating_add(output.saturating_mul(CostConstants::COST_PER_ROW_JOIN))
             }
             PhysicalOperator::HashJoin { left, right } => {
                 let left_cost = self.estimate_cost(left);
@@ -139,9 +141,13 @@ impl<'a> CostEstimator<'a> {
                 let output = self.estimate_output_cardinality(plan);
 
                 left_cost
-                    + right_cost
-                    + (left_cardinality + right_cardinality) * CostConstants::COST_PER_ROW_JOIN
-                    + output * CostConstants::COST_PER_ROW_JOIN
+                    .saturating_add(right_cost)
+                    .saturating_add(
+                        left_cardinality
+                            .saturating_add(right_cardinality)
+                            .saturating_mul(CostConstants::COST_PER_ROW_JOIN),
+                    )
+                    .saturating_add(output.saturating_mul(CostConstants::COST_PER_ROW_JOIN))
             }
             PhysicalOperator::NestedLoopJoin { left, right } => {
                 let left_cost = self.estimate_cost(left);
@@ -149,14 +155,15 @@ impl<'a> CostEstimator<'a> {
                 let left_cardinality = self.estimate_output_cardinality(left);
                 let right_cardinality = self.estimate_output_cardinality(right);
 
-                left_cost
-                    + right_cost
-                    + left_cardinality
+                left_cost.saturating_add(right_cost).saturating_add(
+                    left_cardinality
                         .saturating_mul(right_cardinality)
-                        .saturating_mul(CostConstants::COST_PER_ROW_NESTED_LOOP)
+                        .saturating_mul(CostConstants::COST_PER_ROW_NESTED_LOOP),
+                )
             }
             PhysicalOperator::Projection { input, .. } => {
-                self.estimate_cost(input) + CostConstants::COST_PER_PROJECTION
+                self.estimate_cost(input)
+                    .saturating_add(CostConstants::COST_PER_PROJECTION)
             }
             PhysicalOperator::StarJoin { patterns, .. } => {
                 // Cost = scan most selective + filter rest
@@ -172,11 +179,15 @@ impl<'a> CostEstimator<'a> {
                 costs.sort();
 
                 // Start with smallest, then check each remaining
-                let base_cost = costs[0] * CostConstants::COST_PER_ROW_INDEX_SCAN;
-                let filter_cost =
-                    costs.iter().skip(1).sum::<u64>() * CostConstants::COST_PER_ROW_INDEX_SCAN / 10;
+                let base_cost = costs[0].saturating_mul(CostConstants::COST_PER_ROW_INDEX_SCAN);
+                let filter_cost = costs
+                    .iter()
+                    .skip(1)
+                    .fold(0u64, |sum, cost| sum.saturating_add(*cost))
+                    .saturating_mul(CostConstants::COST_PER_ROW_INDEX_SCAN)
+                    / 10;
 
-                base_cost + filter_cost
+                base_cost.saturating_add(filter_cost)
             }
             PhysicalOperator::InMemoryBuffer { .. } => 0,
             PhysicalOperator::Subquery { inner, spec } => {
@@ -187,14 +198,16 @@ impl<'a> CostEstimator<'a> {
                 // - Cost to execute inner query
                 // - Cost to store results (proportional to cardinality)
                 // - Small overhead for projection
-                let materialization_cost = inner_card * CostConstants::TUPLE_COST;
+                let materialization_cost = inner_card.saturating_mul(CostConstants::TUPLE_COST);
                 let projection_width =
                     spec.projection
                         .as_ref()
                         .map_or(0, |projection| projection.len()) as u64;
-                let projection_cost = inner_card * projection_width;
+                let projection_cost = inner_card.saturating_mul(projection_width);
 
-                inner_cost + materialization_cost + projection_cost
+                inner_cost
+                    .saturating_add(materialization_cost)
+                    .saturating_add(projection_cost)
             }
             PhysicalOperator::Bind {
                 input,
@@ -218,7 +231,7 @@ impl<'a> CostEstimator<'a> {
                 };
 
                 // Total cost = input cost + (cardinality * function cost per row)
-                input_cost + (input_cardinality * function_cost)
+                input_cost.saturating_add(input_cardinality.saturating_mul(function_cost))
             }
             PhysicalOperator::Values { values, .. } => {
                 // VALUES has minimal cost - just the number of rows
@@ -239,7 +252,9 @@ impl<'a> CostEstimator<'a> {
                 let python_overhead = 1000;
                 let per_row_cost = 100 * input_variables.len() as u64;
 
-                input_cost + python_overhead + (cardinality * per_row_cost)
+                input_cost
+                    .saturating_add(python_overhead)
+                    .saturating_add(cardinality.saturating_mul(per_row_cost))
             }
         }
     }
@@ -371,7 +386,7 @@ impl<'a> CostEstimator<'a> {
                         .default_graphs
                         .iter()
                         .map(|graph| self.stats.get_graph_cardinality(*graph))
-                        .sum()
+                        .fold(0u64, u64::saturating_add)
                 })
                 .unwrap_or_else(|| self.stats.get_graph_cardinality(GraphId::Default)),
             GraphTerm::Named(graph) => {
@@ -386,7 +401,7 @@ impl<'a> CostEstimator<'a> {
                 .visible_named_graphs()
                 .into_iter()
                 .map(|graph| self.stats.get_graph_cardinality(graph))
-                .sum(),
+                .fold(0u64, u64::saturating_add),
         }
     }
 
@@ -632,7 +647,7 @@ impl<'a> CostEstimator<'a> {
             PhysicalOperator::Union { branches } => branches
                 .iter()
                 .map(|branch| self.estimate_output_cardinality_in_context(branch, active_graph))
-                .sum(),
+                .fold(0u64, u64::saturating_add),
             PhysicalOperator::Graph { input, graph } => match graph {
                 GraphTerm::Default => self.estimate_output_cardinality_in_context(input, None),
                 GraphTerm::Named(graph) if self.fixed_graph_is_visible(*graph) => {
@@ -643,7 +658,7 @@ impl<'a> CostEstimator<'a> {
                     .visible_named_graphs()
                     .into_iter()
                     .map(|graph| self.estimate_output_cardinality_in_context(input, Some(graph)))
-                    .sum(),
+                    .fold(0u64, u64::saturating_add),
             },
             PhysicalOperator::Filter { input, condition } => {
                 let input_cardinality =
